@@ -5,9 +5,45 @@ ROOT = os.path.dirname(os.path.dirname(os.path.abspath(__file__)))
 
 # id -> (category, technique, level text, level note, design_ref)
 CHECKS = {
+ "C01": ("exploration", "runtime monitor: reference-model (brute-force float64 k-NN) comparison over generated Add/Remove/Flush histories; restricted probes decided bit-exactly against the implementation's own complete listing",
+         "Held on 300 (quick) / 9000 (thorough) generated histories x 3 metrics x dims 1..64 with ~50k complete and ~260k restricted probes per quick run; thresholds include bit-exact reported scores so <= vs < is decidable. Sampling, not proof.",
+         "Oracle: float64 brute force over the model's live set; tolerance scaled to float32 accumulation error (max observed/tolerance reported).", "DESIGN.md §4 C01"),
+ "C02": ("exploration", "runtime monitor: per-kind definition check (live ids of the searched clusters, true distance or ADC recomputed from codebooks read via verif accessors), metamorphic node-id / multi-query / flush-invariance checks",
+         "Held on 200/5000 histories spread over flat, hnsw, ivf, pq, ivfpq x 3 metrics x construction parameters, with complete, restricted, node-id, bad-node-id, multi-query and flush-invariance probes after every op.",
+         "PQ/IVFPQ expected scores recomputed from the index's own codebooks (read-only accessor); HNSW only soundness here (exactness is C12).", "DESIGN.md §4 C02"),
+ "C03": ("exploration", "runtime monitor: textbook Okapi BM25 reference model (N, df, avgdl over resident docs) vs every answer over add/replace/remove/flush histories",
+         "Held on 300/9000 histories over a hostile vocabulary (repeated tokens, empty/punctuation-only text, non-ASCII, compatibility forms) with ~100k single-query and ~6k multi-query probes per quick run.",
+         "Trusted base: UAX#29 segmenter and NFKC tables (same third-party libraries); open corner: a token repeated inside one query may count per occurrence or once.", "DESIGN.md §4 C03"),
+ "C04": ("exploration", "runtime monitor: exact set comparison of every filter expression against an ordinary-comparison model over Add/Remove histories",
+         "Held on 400/8000 document sets x ~50k filter expressions per quick run (every operator, Not of each, AND lists, OR groups, builder API, operands present/absent, mixed-sign and extreme integers, floats with >2 decimals, empty strings, ':' in values).",
+         "Floats generated only where truncation/rounding/floor of v*100 agree; filters on fields the index has never seen are an open corner (error or either typing accepted).", "DESIGN.md §4 C04"),
+ "C05": ("exploration", "runtime monitor: hybrid reference model (metadata pre-filter -> exact filtered k-NN / BM25 top-k -> fusion -> ranking) vs every hybrid answer",
+         "Held on 250/5000 cases over all 8 sub-index configurations with ~16k hybrid queries per quick run (every combination of vector/text/filter/groups, k, four fusions, three aggregations); boundary ties make a probe soundness-only (counted).",
+         "Vector sub-index is flat so 'exact' applies; open corners (one side empty, unknown fields, documents without metadata vs complement filters) accepted both ways.", "DESIGN.md §4 C05"),
+ "C06": ("exploration", "runtime monitor: model comparison of the hybrid index and of every sub-index searched directly after each op, plus metamorphic before==after batteries around every failing op; per-kind update clause on 7 index kinds",
+         "Held on 300/6000 hybrid histories (failing adds in the 1st and 3rd sub-index, removals of unknown/removed ids, re-adds with flush before/between/after) and 210/4200 per-kind update histories.",
+         "Reference = hybrid model of C05; before/after batteries use tie-free complete answers so map-order tie-breaking cannot raise an alarm.", "DESIGN.md §4 C06"),
+ "C12": ("exploration", "runtime monitor: exact k-NN comparison inside the small-graph regime, non-emptiness after every op, BFS reachability invariant on the graph read through a verif accessor at quiescent points, adversarial removal targets chosen on the graph",
+         "Held (apart from listed known findings) on 400/8000 exact-regime histories and 120/1500 graphs of up to 300/3000 vertices; each unreachable vertex is classified on the graph so that only the recorded shapes are suppressed.",
+         "Reachability asserted only in states without pending soft deletes; the k=n, ef>=n corroboration is an observation, not a verdict (directed edges, upper-layer descent).", "DESIGN.md §4 C12"),
+ "C13": ("exploration", "runtime monitor: exact search over the live vectors of every legal choice of the p nearest clusters (centroids read via verif accessor), list-membership invariant after every Add, rank-wise monotonicity in nprobes",
+         "Held on 160/4000 histories with nlist 1..32, duplicate-heavy training sets (duplicate centroids, empty clusters), ~10k partial-probe and ~10k full-probe complete listings plus ~40k restricted probes per quick run.",
+         "Nearest centroid decided with comet's own Distance (monitored by C18); bit-equal ties: up to 64 legal probe sets tried, otherwise soundness only (counted).", "DESIGN.md §4 C13"),
+ "C14": ("exploration", "runtime monitor: nearest-codeword invariant on stored codes, float64 ADC recomputation of every score, quantisation-error bound, crafted self-reconstructing vectors; constructors probed for every nbits 1..16",
+         "Held on 480/6000 PQ/IVFPQ histories over M 1..8, every accepted code size, nlist 1..16, training sets from the minimum accepted size up.",
+         "Codebooks/centroids/codes read through read-only accessors; code sizes too expensive to train would be counted inconclusive (none accepted any more).", "DESIGN.md §4 C14"),
+ "C15": ("exploration", "runtime monitor: measured recall@10 / top-1-in-10 / first-vs-last-tenth recall against FlatIndex on seed-derived Gaussian data sets, compared with the property's own floors",
+         "Held on 2/8 data sets (3000 x N(0,1)^16, 100 queries) x 4 approximate kinds x 3 metrics, built through the public API in generation and shuffled order; measured values are written to the evidence.",
+         "Statistical clause decided against the property's floors, which sit far below the measured values.", "DESIGN.md §4 C15"),
  "C18": ("exploration", "runtime monitor: metric-law assertions on generated vector tuples vs float64 recomputation",
          "Every law of C18 asserted on 20k (quick) / 1.5M (thorough) generated pairs/triples across dim 1..512 and magnitudes 1e-6..1e6, incl. equal/opposite/orthogonal/nearly-parallel/scaled relations; held-on-what-was-generated, not a proof.",
          "Oracle = float64 recomputation from the same float32 inputs; tolerances scaled to float32 accumulation error (max observed error is reported in the evidence).", "DESIGN.md §4 C18"),
+ "C19": ("exploration", "runtime monitor: direct transcription of each aggregation/limit/autocut/fusion/merge law checked on generated lists and map pairs (duplicates, ties, +-Inf, NaN), panics caught as violations, inputs compared before/after",
+         "Held on 12k/800k aggregation inputs and as many fusion inputs per run (every kind, every k/cutoff in [-3,len+3], disjoint/nested/equal/partial key sets, random weights and K).",
+         "RRF rank is 0-based as in the pinned tree; with tied scores any legal ranking is accepted (bounds check).", "DESIGN.md §4 C19"),
+ "C20": ("exploration", "runtime monitor: k-means invariants (count, finiteness, bounding box, determinism, nearest-centroid on observationally converged runs), quantiser round-trip bounds, twice-trained IVF/PQ/IVFPQ search equality",
+         "Held on 2.5k/60k k-means runs (duplicates, collinear, k>n, k and maxIter over Z), 20k/600k quantiser batches, 90/1500 twice-trained index pairs.",
+         "Convergence decided observationally (identical centroids and mapping for maxIter=m and m+1); nearest-centroid uses comet's Distance (C18).", "DESIGN.md §4 C20"),
 }
 PENDING = {}
 
